@@ -15,7 +15,7 @@ from vf.xmodel import Schema, Rop, build_api, build_loader
 
 SHARDS = {'quick': 16, 'thorough': 32}
 TIMEOUT = {'quick': 900, 'thorough': 3600}
-MUST_HIT = ['Cell.where_eq-two-spellings-in-one-filter', 'Cell.where_eq-identifier-twin', 'Cell.two-classes', 'Cell.read-all-spellings', 'Cell.serialize', 'Cell.where_eq',
+MUST_HIT = ['ClassName.navigation-spellings', 'Cell.where_eq-two-spellings-in-one-filter', 'Cell.where_eq-identifier-twin', 'Cell.two-classes', 'Cell.read-all-spellings', 'Cell.serialize', 'Cell.where_eq',
             'Referential.write-rejected', 'Referential.ctor-keyword', 'Referential.loaded-instance', 'ClassName.spellings',
             'Cell.referred-identifier-written', 'ClassName.whole-model-after-spellings', 'Cell.where_eq-after-delete']
 MUST_REACH = ['xtuml/meta.py:Class.__getattr__', 'xtuml/meta.py:Class.__setattr__',
@@ -361,6 +361,48 @@ def class_name_checks(ctx, route):
         ctx.case_enum(True)
 
 
+def navigation_name_checks(ctx, route):
+    '''
+    A class name in a navigation step is a class name in a selection: every spelling reaches the same instances -
+    over a simple association, from and to an association class, and across it in one step.
+    '''
+    import xtuml
+    UID = 'UNIQUE_ID'
+    sch = Schema([('Per', [('Id', UID), ('Nm', 'STRING')]), ('Dog', [('Id', UID), ('Nm', 'STRING')]),
+                  ('Own', [('Per_Id', UID), ('Dog_Id', UID)]), ('Toy', [('Id', UID), ('Dog_Id', UID)])],
+                 [Rop(1, 'Own', ['Per_Id'], 'MC', '', 'Per', ['Id'], '1', ''),
+                  Rop(1, 'Own', ['Dog_Id'], 'MC', '', 'Dog', ['Id'], '1', ''),
+                  Rop(2, 'Toy', ['Dog_Id'], 'MC', '', 'Dog', ['Id'], '1C', '')])
+    m = build_api(sch) if route == 'api' else build_loader(sch)
+    per, d1, d2 = m.new('Per', Nm='p'), m.new('Dog', Nm='d1'), m.new('Dog', Nm='d2')
+    o1, o2, toy = m.new('Own'), m.new('Own'), m.new('Toy')
+    for own, dog in ((o1, d1), (o2, d2)):
+        xtuml.relate(own, per, 1)
+        xtuml.relate(own, dog, 1)
+    xtuml.relate(toy, d2, 2)
+    cases = [(per, 'Dog', 1, [d1, d2]), (per, 'Own', 1, [o1, o2]), (o2, 'Dog', 1, [d2]), (d1, 'Per', 1, [per]),
+             (toy, 'Dog', 2, [d2]), (d2, 'Toy', 2, [toy]), (d1, 'Own', 1, [o1])]
+    for start, kind, rel, want in cases:
+        for sp in spellings(kind):
+            ctx.hit('ClassName.navigation-spellings')
+            for how in ('nav', 'item', 'one'):
+                try:
+                    if how == 'nav':
+                        got = list(xtuml.navigate_many(start).nav(sp, rel)())
+                    elif how == 'item':
+                        got = list(getattr(xtuml.navigate_many(start), sp)[rel]())
+                    else:
+                        one = getattr(xtuml.navigate_one(start), sp)['R%d' % rel]()
+                        got = want if one is want[0] else [one]
+                except xtuml.MetaException as e:
+                    raise Mismatch('class/navigation-spelling', 'navigating from a %s to %r across R%d raised %s: %s'
+                                   % (start.__class__.__name__, sp, rel, type(e).__name__, e))
+                if got != want:
+                    raise Mismatch('class/navigation-spelling', 'navigating from a %s to %r across R%d reaches %r, to '
+                                   '%r it reaches %r' % (start.__class__.__name__, sp, rel, got, kind, want))
+    ctx.case_enum(True)
+
+
 def two_class_checks(ctx, route, name):
     '''
     Two classes whose attribute names are equal ignoring case but declared in
@@ -597,6 +639,10 @@ def run(ctx):
                 class_name_checks(ctx, route)
             except Mismatch as e:
                 ctx.violation(e.key, e.what, case=dict(part='class-names', route=route))
+            try:
+                navigation_name_checks(ctx, route)
+            except Mismatch as e:
+                ctx.violation(e.key, e.what, case=dict(part='class-names-in-navigation', route=route))
     if ctx.shard in (2, 3, 4):
         name = {2: 'ab', 3: 'Nam', 4: 'Nam'}[ctx.shard]
         route = 'loader' if ctx.shard == 4 else 'api'
